@@ -171,3 +171,21 @@ Proof. exact chan_limit_example. Qed.
 Theorem C14_source_limits_wiring :
   NW.Gen.Wiring.wiring_mismatches = [] /\ (20 <=? NW.Gen.Wiring.wiring_sites)%N = true.
 Proof. split; reflexivity. Qed.
+
+(* ---- start-up negotiation of the size limits with the modulator (Model/Link.adjust_limit; types pasted from
+        Proofs/LinkProofs.v by tools/pin.py) ---- *)
+From NW Require Import Model.Link Proofs.LinkProofs.
+
+Theorem C14_adjusted_limit_never_exceeds_configuration :
+  forall configured advertised : N,
+    adjust_limit configured advertised <= configured /\
+    adjust_limit configured advertised <= advertised /\
+    (adjust_limit configured advertised = configured \/
+     adjust_limit configured advertised = advertised).
+Proof. exact adjust_limit_bounds. Qed.
+
+Theorem C14_adjusted_limit_cases :
+  forall configured advertised : N,
+    (configured <= advertised -> adjust_limit configured advertised = configured) /\
+    (advertised <= configured -> adjust_limit configured advertised = advertised).
+Proof. exact adjust_limit_cases. Qed.
